@@ -168,7 +168,7 @@ theorem c03_settled_bets_frozen (p : Params) (bal : List (Nat × Int)) (h t : Na
     s'.pending.filter (fun x => x.2.1 == b.id) = [] := by
   intro s s' hb hst
   have hI : BetIdx s := run_betIdx _ ops (betIdx_init p bal h t)
-  have e : s' = run s later := run_append _ ops later
+  have e : s' = run s later := run_split _ ops later
   have hI' : BetIdx s' := by rw [e]; exact run_betIdx _ later hI
   have hb' : b ∈ s'.bets := by rw [e]; exact run_keeps s later hI b hb hst
   have hl := (hI'.listed_once b hb').2 hst
@@ -206,5 +206,53 @@ theorem c03_settled_in_one_endblock (p : Params) (bal : List (Nat × Int)) (h t 
   rcases settled_origin s0 (betIdx_init p bal h t) ops b hb hst with h0 | h1
   · cases h0
   · exact h1
+
+-- ---------------------------------------------------------------------------------------------
+-- non-vacuity: a concrete history in which bets are accepted, one is rejected, and both accepted ones settle,
+-- in different blocks
+
+def c08Tk : Tk := { ok := true, kycIgnore := true, kycApproved := false, kycId := 0 }
+
+def c08Init : State := {
+  bal := [(1, 5000), (6, 300), (7, 300)], params := { houseMin := 10, betMin := 2, betFee := 1, houseMaxW := 3 },
+  height := 1, time := 100 }
+
+/-- two markets with one deposit each; bet 1 (uid 901) on market 2, bet 2 (uid 902) on market 1, a third wager that
+    reuses uid 902 (rejected); market 1 is declared in block 2, market 2 cancelled in block 3 -/
+def c08Ops : List Op :=
+  [.marketAdd 0 c08Tk 1 50 5000 [11, 12] MS_ACTIVE, .marketAdd 0 c08Tk 2 50 5000 [21, 22, 23] MS_ACTIVE,
+   .deposit 1 c08Tk 1 500 0, .deposit 1 c08Tk 2 400 0,
+   .wager 6 c08Tk 901 100 { market := 2, odds := 22, oddsVal := some ⟨3 * PREC⟩, mult := ⟨PREC⟩, allOdds := [(21, ⟨PREC⟩), (22, ⟨PREC⟩), (23, ⟨PREC⟩)] },
+   .wager 7 c08Tk 902 50 { market := 1, odds := 11, oddsVal := some ⟨2 * PREC⟩, mult := ⟨PREC⟩, allOdds := [(11, ⟨PREC⟩), (12, ⟨PREC⟩)] },
+   .wager 7 c08Tk 902 50 { market := 1, odds := 11, oddsVal := some ⟨2 * PREC⟩, mult := ⟨PREC⟩, allOdds := [(11, ⟨PREC⟩), (12, ⟨PREC⟩)] },
+   .endBlock, .newBlock 2 200, .marketResolve c08Tk 1 150 MS_DECLARED [11], .endBlock,
+   .newBlock 3 300, .marketResolve c08Tk 2 250 MS_CANCELED [], .endBlock, .newBlock 4 400, .endBlock]
+
+/-- the bet records as (creator, id, uid, status, settleHeight) -/
+def c08Bets (s : State) : List (Nat × Nat × Nat × Nat × Nat) :=
+  s.bets.map (fun b => (b.creator, b.id, b.uid, b.status, b.settleHeight))
+
+/-- after the three wagers: two bets with ids 1, 2, both pending (the index is ordered by market, not by id); the
+    wager that reused a uid failed -/
+example :
+    let s := run c08Init (c08Ops.take 7)
+    s.betCount = 2 ∧ c08Bets s = [(6, 1, 901, BS_PLACED, 0), (7, 2, 902, BS_PLACED, 0)] ∧
+    s.pending = [(1, 2, 902, 7), (2, 1, 901, 6)] ∧ s.settled = [] ∧
+    (step (run c08Init (c08Ops.take 6)) (c08Ops.getD 6 .endBlock)).2 = .err := by
+  decide
+
+/-- after the end-block of block 2: bet 2 is settled at height 2, bet 1 is still pending -/
+example :
+    let s := run c08Init (c08Ops.take 11)
+    s.betCount = 2 ∧ c08Bets s = [(6, 1, 901, BS_PLACED, 0), (7, 2, 902, BS_SETTLED, 2)] ∧
+    s.pending = [(2, 1, 901, 6)] ∧ s.settled = [(2, 2, 902, 7)] := by
+  decide
+
+/-- at the end: bet 1 was settled at height 3; the record of bet 2 is what it was after block 2 -/
+example :
+    let s := run c08Init c08Ops
+    s.betCount = 2 ∧ c08Bets s = [(6, 1, 901, BS_SETTLED, 3), (7, 2, 902, BS_SETTLED, 2)] ∧
+    s.pending = [] ∧ s.settled = [(2, 2, 902, 7), (3, 1, 901, 6)] := by
+  decide
 
 end Sge.Core
